@@ -7,6 +7,7 @@ import (
 	"go/token"
 	"go/types"
 	"math/big"
+	"sort"
 )
 
 func (ex *Exec) typeOf(e ast.Expr) types.Type {
@@ -635,6 +636,19 @@ func (ex *Exec) constInt(e ast.Expr, def int) int {
 		}
 	}
 	if !t.IsConst() {
+		// a bound that can only take a few values (arithmetic on flags): fork on the value
+		if vs := ex.smallValues(t, 0); len(vs) > 0 && len(vs) <= 4 {
+			for i, v := range vs {
+				if i == len(vs)-1 || ex.decide(Eq(t, IntC(v)), ex.where(e)) {
+					if i == len(vs)-1 {
+						ex.st.addFact(Eq(t, IntC(v)), "only remaining value of "+ex.where(e))
+					}
+					return int(v.Int64())
+				}
+			}
+		}
+	}
+	if !t.IsConst() {
 		ex.unsupported("non-constant slice bound at %s", ex.where(e))
 	}
 	return int(t.val.Int64())
@@ -677,4 +691,68 @@ func (ex *Exec) evalSliceExpr(e *ast.SliceExpr) Value {
 		return SliceV{Elem: elem}
 	}
 	return SliceV{Obj: obj, Off: off + lo*es, Len: hi - lo, Cap: mx - lo, Elem: elem}
+}
+
+// smallValues returns the finite set of values an integer term can take when that set is syntactically evident
+// (constants, flags with a known range of at most 4, if-then-else, sums and products of such), or nil.
+func (ex *Exec) smallValues(t *Term, depth int) []*big.Int {
+	if depth > 8 {
+		return nil
+	}
+	uniq := func(vs []*big.Int) []*big.Int {
+		sort.Slice(vs, func(i, j int) bool { return vs[i].Cmp(vs[j]) < 0 })
+		var out []*big.Int
+		for _, v := range vs {
+			if len(out) == 0 || out[len(out)-1].Cmp(v) != 0 {
+				out = append(out, v)
+			}
+		}
+		if len(out) > 16 {
+			return nil
+		}
+		return out
+	}
+	switch {
+	case t.IsConst():
+		return []*big.Int{t.val}
+	case t.op == "ite":
+		a, b := ex.smallValues(t.args[1], depth+1), ex.smallValues(t.args[2], depth+1)
+		if a == nil || b == nil {
+			return nil
+		}
+		return uniq(append(append([]*big.Int{}, a...), b...))
+	case t.op == "+" || t.op == "*":
+		acc := []*big.Int{bi(0)}
+		if t.op == "*" {
+			acc = []*big.Int{bi(1)}
+		}
+		for _, a := range t.args {
+			vs := ex.smallValues(a, depth+1)
+			if vs == nil {
+				return nil
+			}
+			var next []*big.Int
+			for _, x := range acc {
+				for _, y := range vs {
+					if t.op == "+" {
+						next = append(next, new(big.Int).Add(x, y))
+					} else {
+						next = append(next, new(big.Int).Mul(x, y))
+					}
+				}
+			}
+			if acc = uniq(next); acc == nil {
+				return nil
+			}
+		}
+		return acc
+	}
+	if ub, ok := ex.st.ranges[t]; ok && ub.Cmp(bi(4)) <= 0 {
+		var vs []*big.Int
+		for i := int64(0); i < ub.Int64(); i++ {
+			vs = append(vs, bi(i))
+		}
+		return vs
+	}
+	return nil
 }
